@@ -16,8 +16,8 @@ class SrcError(Exception):
 class FailingTable(object):
     """header ('v','k') + n rows whose key order is the reverse of their natural (whole-row) order; raises at position `fail`
     (0 = header, r+1 = data row r).  `bad` = index of a row holding a cell that cannot be pickled (the chunk dump fails)."""
-    def __init__(self, n, fail, bad=None):
-        self.n, self.fail, self.bad = n, fail, bad
+    def __init__(self, n, fail, bad=None, ties=False):
+        self.n, self.fail, self.bad, self.ties = n, fail, bad, ties
 
     def __iter__(self):
         if self.fail == 0:
@@ -26,11 +26,13 @@ class FailingTable(object):
         for i in range(self.n):
             if self.fail is not None and self.fail == i + 1:
                 raise SrcError('row %d' % i)
-            yield ('r%d' % i if i != self.bad else (lambda: None), self.n - i)
+            yield ('r%d' % i if i != self.bad else (lambda: None), (self.n - i) // 2 if self.ties else self.n - i)
 
 
-def expected_rows(n):
-    return [('v', 'k')] + sorted([('r%d' % i, n - i) for i in range(n)], key=lambda r: r[1])
+def expected_rows(n, ties=False, rev=False):
+    # the stable sort by the key (ties: equal keys in neighbouring chunks keep their table order, in either direction)
+    rows = [('r%d' % i, (n - i) // 2 if ties else n - i) for i in range(n)]
+    return [('v', 'k')] + sorted(rows, key=lambda r: r[1], reverse=rev)
 
 
 def random_history(rng, maxlen=14, maxiters=3):
@@ -106,7 +108,7 @@ class C18(Prop):
             bs = rng.choice([None, 1, 2, 2, 3, 5])
             cache = rng.random() < 0.6
             fail = rng.choice([None, None, None] + list(range(0, n + 1)))
-            yield Case('tf_run', (n, bs, cache, fail, random_history(rng)), {'rev': rng.random() < 0.4})
+            yield Case('tf_run', (n, bs, cache, fail, random_history(rng)), {'rev': rng.random() < 0.4, 'ties': rng.random() < 0.4})
         for _ in range(nrand // 3):
             n = rng.choice([0, 1, 2, 3, 5])
             yield Case('df_hist', (n, random_history(rng)))
@@ -132,6 +134,9 @@ class C18(Prop):
         yield Case('tf_run', (3, 1, True, None, again))
         yield Case('tf_run', (4, 2, True, None, again), {'rev': True})
         yield Case('tf_run', (5, 1, True, None, again), {'rev': True})
+        for n, bs in ((6, 1), (6, 2), (5, 1), (4, 1), (6, 3)):
+            yield Case('tf_run', (n, bs, True, None, again), {'ties': True})
+            yield Case('tf_run', (n, bs, True, None, again), {'ties': True, 'rev': True})
         # fromdicts(<generator>): a lagging iterator re-reads an old record of the spill file, then the leader draws a new row
         lag = ((0,), (0,), (1, 0), (1, 0), (1, 0), (1, 0), (1, 1), (1, 1), (1, 0), (1, 1), (1, 1), (1, 1), (1, 1), (1, 1), (0,),
                (1, 2), (1, 2), (1, 2), (1, 2), (1, 2), (1, 2), (2, 0), (2, 1), (2, 2), (3,))
@@ -208,12 +213,11 @@ class C18(Prop):
         import petl as etl
         n, bs, cache, fail, ops = case.arg
         rev = bool(case.meta.get('rev'))
-        exp = expected_rows(n)
-        if rev:
-            exp = exp[:1] + exp[:0:-1]
+        ties = bool(case.meta.get('ties'))
+        exp = expected_rows(n, ties, rev)
         rows_ok = True
         with tempfile.TemporaryDirectory(dir='/var/tmp') as td:
-            view = etl.sort(FailingTable(n, fail), 'k', reverse=rev, buffersize=bs, cache=cache, tempdir=td)
+            view = etl.sort(FailingTable(n, fail, ties=ties), 'k', reverse=rev, buffersize=bs, cache=cache, tempdir=td)
             its = []
             got = []
             obs = []
@@ -367,14 +371,14 @@ class C18(Prop):
             self._oks = {}
         if len(self._oks) > 50000:
             self._oks.clear()
-        self._oks[case.key() + repr(case.meta.get('rev'))] = ok
+        self._oks[case.key() + repr((case.meta.get('rev'), case.meta.get('ties')))] = ok
 
     # ---- the property on the implementation's own behaviour ---------------------------------------------------------------
     def spec(self, case, impl_obs, model_obs):
         if case.op == 'const_true':
             return impl_obs == codec.t_bool(True)
         if case.op == 'tf_run':
-            ok = getattr(self, '_oks', {}).get(case.key() + repr(case.meta.get('rev')))
+            ok = getattr(self, '_oks', {}).get(case.key() + repr((case.meta.get('rev'), case.meta.get('ties'))))
             if ok is None:
                 return None
             if not ok:
